@@ -51,6 +51,22 @@ def expected_feature(ds, feat, idx):
     return np.stack([np.asarray(ds[feat][int(i)]) for i in idx]) if len(idx) else None
 
 
+def _root_view(ds):
+    """For a hierarchy member: (root dataset, root index of every member event), composed from
+    the observable filter arrays of the ancestors; None when the chain is not current."""
+    chain = []
+    d = ds
+    while d.format == "hierarchy":
+        chain.append(d.hparent)
+        d = d.hparent
+    idx = np.arange(len(d))
+    for parent in reversed(chain):
+        idx = idx[np.flatnonzero(np.asarray(parent.filter.all))]
+    if len(idx) != len(ds):
+        return None
+    return d, idx
+
+
 def snapshot_hdf5(exp, features, filtered, skip_checks):
     ds = exp.rtdc_ds
     n = len(ds)
@@ -62,9 +78,22 @@ def snapshot_hdf5(exp, features, filtered, skip_checks):
             mask[min(lens):] = False
     idx = np.flatnonzero(mask)
     snap = {"features": feats, "idx": idx, "n_src": n, "expected": {}, "errors": {}}
+    rv = None
+    if getattr(ds, "format", None) == "hierarchy":
+        try:
+            rv = _root_view(ds)
+        except Exception:
+            rv = None
+    import dclab.definitions as dfn_
     for f in feats:
         try:
-            snap["expected"][f] = expected_feature(ds, f, idx)
+            if rv is not None and f in ("image", "image_bg", "mask", "contour", "trace") \
+                    and f in rv[0].features_innate:
+                # provenance: the non-scalar data of a hierarchy member are the root's data
+                # at the composed root indices (independent of the member's own mapping)
+                snap["expected"][f] = expected_feature(rv[0], f, rv[1][idx])
+            else:
+                snap["expected"][f] = expected_feature(ds, f, idx)
         except Exception as exc:
             snap["errors"][f] = repr(exc)
     cfg = {}
